@@ -143,6 +143,9 @@ def state_writes(fi: FuncInfo) -> List[Tuple[str, ast.AST]]:
 
     def classify_target(t: ast.AST, node: ast.AST, mut: str = ""):
         root = _root_name(t)
+        if isinstance(root, ast.Call) and ast.unparse(root.func) == "type" and root.args and isinstance(root.args[0], ast.Name) and root.args[0].id in selfish:
+            out.append(("clsattr:%s%s" % (ast.unparse(t).replace(" ", ""), mut), node))     # type(self).X = ...: class-level state
+            return
         if not isinstance(root, ast.Name):
             return
         if root.id in alias and (isinstance(t, ast.Subscript) or mut):
@@ -182,7 +185,8 @@ def state_writes(fi: FuncInfo) -> List[Tuple[str, ast.AST]]:
                 while isinstance(e, ast.Attribute):
                     chain.append(e.attr)
                     e = e.value
-                out.append(("attr:%s.%s%s%s" % ("self" if root.id == first else root.id, ".".join(reversed(chain)), sub, mut), node))
+                kind = "clsattr" if chain and chain[-1] == "__class__" else "attr"
+                out.append(("%s:%s.%s%s%s" % (kind, "self" if root.id == first else root.id, ".".join(reversed(chain)), sub, mut), node))
             return
         if isinstance(t, (ast.Subscript,)) or mut:
             if root.id in loc or root.id in imported:
